@@ -218,6 +218,11 @@ func (e *SpecEnv) lookupIdent(name string) (Val, bool) {
 			if pv, ok := li.phiNames[name]; ok {
 				return e.fr.vals[pv], true
 			}
+			if li.rangeIdxName == name && li.counter != "" {
+				// the index variable of `for i, x := range xs`: at the loop head it is the number of
+				// completed iterations, exactly what i means in the counted form of the same loop
+				return Val{T: li.counter, Ty: tInt}, true
+			}
 		}
 		// free variables of closures denote the captured cells (pointers): *i is the value
 		for _, fv := range e.fr.fn.FreeVars {
@@ -269,6 +274,19 @@ func (e *SpecEnv) lookupIdent(name string) (Val, bool) {
 		if o := e.pkg.Scope().Lookup(name); o != nil {
 			if k, ok := o.(*types.Const); ok {
 				return c.constToVal(k.Val(), k.Type()), true
+			}
+			// package-level variable inside a spec function / lemma body: the content of its
+			// cell in the heap the spec function is applied to (a heap parameter)
+			if _, ok := o.(*types.Var); ok && e.fr == nil {
+				if sp := c.prog.SSA.Package(e.pkg); sp != nil {
+					if g, ok := sp.Members[name].(*ssa.Global); ok {
+						gn := "glob_" + sanitize(g.Pkg.Pkg.Name()+"_"+g.Name())
+						c.declOnce("glob:"+gn, fmt.Sprintf("(declare-fun %s () Int)\n(assert (and (> %s 0) (< %s alloc0)))", gn, gn, gn))
+						c.globals[gn] = true
+						et := g.Type().(*types.Pointer).Elem()
+						return Val{T: c.rd(e.heapOf(c.hk(et)), gn, "0"), Ty: et}, true
+					}
+				}
 			}
 		}
 	}
@@ -740,9 +758,61 @@ func (e *SpecEnv) trBinary(x *EBinary) Val {
 		case "%":
 			return Val{T: "(mod " + a.T + " " + b.T + ")", Ty: a.Ty}
 		}
+		if x.Op == "+" || x.Op == "-" {
+			return Val{T: linAdd(x.Op, a.T, b.T), Ty: a.Ty}
+		}
 		return Val{T: "(" + x.Op + " " + a.T + " " + b.T + ")", Ty: a.Ty}
 	}
 	return e.errorf("operator %s", x.Op)
+}
+
+// linAdd builds a + b / a - b over integers, folding integer constants through one level of
+// (+ X n) / (- X n): (j - 1) + 1 becomes j. Index terms that differ only by such re-basing are then
+// syntactically equal, which quantifier instantiation needs (it does not do arithmetic).
+func linAdd(op, a, b string) string {
+	split := func(t string) (string, int64, bool) {
+		if n, ok := constTermInt(t); ok {
+			return "", n, true
+		}
+		if args := splitArgs(t); len(args) == 3 && (args[0] == "+" || args[0] == "-") {
+			if n, ok := constTermInt(args[2]); ok {
+				if args[0] == "-" {
+					n = -n
+				}
+				return args[1], n, true
+			}
+			if n, ok := constTermInt(args[1]); ok && args[0] == "+" {
+				return args[2], n, true
+			}
+		}
+		return t, 0, true
+	}
+	ba, ca, _ := split(a)
+	bb, cb, _ := split(b)
+	plain := "(" + op + " " + a + " " + b + ")"
+	if bb != "" {
+		// the right operand is not a constant: only fold when the left is a pure constant and op is +
+		if ba == "" && op == "+" && cb == 0 {
+			return plain
+		}
+		return plain
+	}
+	// right operand is the constant cb
+	if op == "-" {
+		cb = -cb
+	}
+	k := ca + cb
+	if ba == "" {
+		return intLit(k)
+	}
+	switch {
+	case k == 0:
+		return ba
+	case k > 0:
+		return "(+ " + ba + " " + intLit(k) + ")"
+	default:
+		return "(- " + ba + " " + intLit(-k) + ")"
+	}
 }
 
 func isTypeof(x Expr) bool {
